@@ -371,3 +371,193 @@ def slice_loops(it, unit, relevant_callees):
     it.exec_loop = exec_loop
     it.exec_do = exec_do
     return it
+
+
+# ------------------------------------------------------------------ C string model ---
+# NUL-terminated strings for concrete evaluation of file-name helpers: an immutable python str
+# (string literal, configured global) or a pointer `_Ref(ElemPlace(Arr of char codes, i))` into a
+# writable buffer (strdup/malloc'd copy).  Every model falls back to an opaque call when an
+# argument is not a concrete string, so an unknown shape ends as "name not concrete"
+# (undecided), never as a wrong concrete name.
+from .interp import ElemPlace
+
+
+def cstr(v):
+    """python str denoted by a char* value, or None when it is not a concrete NUL-terminated string"""
+    if isinstance(v, str):
+        return v
+    arr = i = None
+    if isinstance(v, _Ref) and isinstance(v.place, ElemPlace) and isinstance(v.place.arr, Arr) and isinstance(v.place.i, int):
+        arr, i = v.place.arr, v.place.i
+    elif isinstance(v, Arr):
+        arr, i = v, 0
+    if arr is None or i < 0:
+        return None
+    out = []
+    for c in arr.elems[i:]:
+        if not isinstance(c, int) or isinstance(c, bool):
+            return None
+        if c == 0:
+            return ''.join(out)
+        out.append(chr(c & 0xff))
+    return None
+
+
+def cbuf(s, label='buf'):
+    """fresh writable copy of s; the value is a pointer to its first char"""
+    return _Ref(ElemPlace(Arr([ord(c) for c in s] + [0], label=label), 0))
+
+
+def _sub(v, off):
+    """pointer to v + off (same buffer when v is writable)"""
+    if isinstance(v, str):
+        return v[off:]
+    if isinstance(v, Arr):
+        return _Ref(ElemPlace(v, off))
+    return _Ref(ElemPlace(v.place.arr, v.place.i + off))
+
+
+def _opaque_call(it, ctx, n, args):
+    t = n.dtype or n.type
+    r = None if t == 'void' else it.lazy_value(t, ctx.fresh(n.callee()))
+    ctx.emit('call', n.callee(), args, n.line, r)
+    return r
+
+
+def _chr(v):
+    return chr(v & 0xff) if isinstance(v, int) and not isinstance(v, bool) else None
+
+
+def _printf_format(fmt, args):
+    """result of a printf-style format restricted to %s %d %c %%, or None"""
+    out = []
+    i = 0
+    k = 0
+    while i < len(fmt):
+        c = fmt[i]
+        if c != '%':
+            out.append(c); i += 1; continue
+        if i + 1 >= len(fmt):
+            return None
+        d = fmt[i + 1]
+        i += 2
+        if d == '%':
+            out.append('%'); continue
+        if k >= len(args):
+            return None
+        a = args[k]; k += 1
+        if d == 's':
+            s = cstr(a)
+            if s is None:
+                return None
+            out.append(s)
+        elif d == 'd' and isinstance(a, int):
+            out.append(str(a))
+        elif d == 'c' and _chr(a) is not None:
+            out.append(_chr(a))
+        else:
+            return None
+    return ''.join(out)
+
+
+def string_models():
+    def wrap(f):
+        def m(it, ctx, n, args):
+            try:
+                r = f(args)
+            except (IndexError, TypeError):
+                r = NotImplemented
+            if r is NotImplemented:
+                return _opaque_call(it, ctx, n, args)
+            return r
+        return m
+
+    def need(*vs):
+        ss = [cstr(v) for v in vs]
+        if any(s is None for s in ss):
+            raise TypeError
+        return ss
+
+    def m_strdup(a):
+        s, = need(a[0]); return cbuf(s, 'strdup')
+
+    def m_strndup(a):
+        s, = need(a[0])
+        if not isinstance(a[1], int):
+            return NotImplemented
+        return cbuf(s[:a[1]], 'strndup')
+
+    def m_strlen(a):
+        s, = need(a[0]); return len(s)
+
+    def m_strchr(a, last=False):
+        s, = need(a[0]); c = _chr(a[1])
+        if c is None:
+            return NotImplemented
+        if c == '\0':
+            return _sub(a[0], len(s))
+        i = s.rfind(c) if last else s.find(c)
+        return 0 if i < 0 else _sub(a[0], i)
+
+    def m_strstr(a):
+        s, t = need(a[0], a[1]); i = s.find(t)
+        return 0 if i < 0 else _sub(a[0], i)
+
+    def m_basename(a):
+        # POSIX basename (libgen.h): trailing slashes removed, "" -> ".", "/" -> "/"
+        s, = need(a[0])
+        if s == '':
+            return '.'
+        if s.strip('/') == '':
+            return '/'
+        t = s.rstrip('/')
+        if len(t) != len(s):
+            if isinstance(a[0], str):
+                return t[t.rfind('/') + 1:]
+            arr, i0 = a[0].place.arr, a[0].place.i
+            arr.elems[i0 + len(t)] = 0
+        return _sub(a[0], t.rfind('/') + 1)
+
+    def m_dirname(a):
+        s, = need(a[0])
+        t = s.rstrip('/')
+        if '/' not in t:
+            return '/' if s.startswith('/') else '.'
+        d = t[:t.rfind('/')].rstrip('/') or '/'
+        return cbuf(d, 'dirname')
+
+    def m_strcmp(a):
+        s, t = need(a[0], a[1]); return (s > t) - (s < t)
+
+    def m_strncmp(a):
+        s, t = need(a[0], a[1])
+        if not isinstance(a[2], int):
+            return NotImplemented
+        s, t = s[:a[2]], t[:a[2]]
+        return (s > t) - (s < t)
+
+    def m_format(a):
+        f, = need(a[0]); r = _printf_format(f, a[1:])
+        return NotImplemented if r is None else cbuf(r, 'format')
+
+    def m_strcpy(a):
+        s, = need(a[1])
+        d = a[0]
+        if not (isinstance(d, _Ref) and isinstance(d.place, ElemPlace) and isinstance(d.place.arr, Arr) and isinstance(d.place.i, int)):
+            return NotImplemented
+        for k, c in enumerate(s + '\0'):
+            ElemPlace(d.place.arr, d.place.i + k).set(None, ord(c))
+        return d
+
+    def m_strcat(a):
+        s, = need(a[0])
+        return m_strcpy([_sub(a[0], len(s)), a[1]]) is NotImplemented and NotImplemented or a[0]
+
+    return {'strdup': wrap(m_strdup), 'strndup': wrap(m_strndup), 'strlen': wrap(m_strlen),
+            'strchr': wrap(m_strchr), 'strrchr': wrap(lambda a: m_strchr(a, True)), 'strstr': wrap(m_strstr),
+            'basename': wrap(m_basename), '__xpg_basename': wrap(m_basename), 'dirname': wrap(m_dirname),
+            'strcmp': wrap(m_strcmp), 'strncmp': wrap(m_strncmp), 'format': wrap(m_format),
+            'strcpy': wrap(m_strcpy), 'strcat': wrap(m_strcat)}
+
+
+STRING_FNS = tuple(sorted(string_models()))
